@@ -57,6 +57,8 @@ pub struct CrateCfg {
     pub strum_dep_name: String,
     pub strum_default_features: bool,
     pub lib_only: bool,
+    pub with_vrt: bool,
+    pub target_dir: Option<PathBuf>,
 }
 
 impl CrateCfg {
@@ -71,6 +73,8 @@ impl CrateCfg {
             strum_dep_name: "strum".into(),
             strum_default_features: true,
             lib_only: false,
+            with_vrt: true,
+            target_dir: None,
         }
     }
 }
@@ -133,7 +137,7 @@ edition = "2021"
 
 [dependencies]
 {strum}
-vrt = {{ path = "{vrt}" }}
+{vrt}
 {extra}
 
 [workspace]
@@ -158,7 +162,7 @@ opt-level = 2
 "#,
         id = cfg.id,
         strum = strum_dep,
-        vrt = env.verif.join("engine/vrt").display(),
+        vrt = if cfg.with_vrt { format!("vrt = {{ path = \"{}\" }}", env.verif.join("engine/vrt").display()) } else { String::new() },
         extra = cfg.extra_deps.join("\n"),
     );
     write_if_changed(&cfg.dir.join("Cargo.toml"), &toml)?;
@@ -167,6 +171,34 @@ opt-level = 2
         std::fs::copy(env.verif.join("engine/Cargo.lock"), &lock)?;
     }
     let mut layouts = Vec::new();
+    if cfg.lib_only {
+        // one library crate holding every module
+        let mut text = String::new();
+        let mut line = 0usize;
+        for h in &cfg.header {
+            text.push_str(h);
+            text.push('\n');
+            line += 1;
+        }
+        let mut lay = ShardLayout { file: "src/lib.rs".to_string(), modules: vec![], tags: vec![], ranges: vec![], enums: vec![] };
+        for it in items.iter() {
+            if removed.contains(&it.spec.name) {
+                continue;
+            }
+            let first = line + 1;
+            text.push_str(&it.module.src.text);
+            for (l, t) in &it.module.src.tags {
+                lay.tags.push((line + l, t.clone()));
+            }
+            line += it.module.src.line;
+            lay.modules.push((first, line, it.spec.name.clone()));
+            lay.enums.push(it.spec.name.clone());
+        }
+        let _ = std::fs::remove_dir_all(cfg.dir.join("src/bin"));
+        write_if_changed(&cfg.dir.join("src/lib.rs"), &text)?;
+        layouts.push(lay);
+        return Ok(Emitted { layouts });
+    }
     for sh in 0..NSHARDS {
         let mut text = String::new();
         let mut line = 0usize;
@@ -259,13 +291,13 @@ pub fn run_with_timeout(mut cmd: Command, timeout: Duration) -> (Option<i32>, St
 pub fn cargo_build(env: &Env, cfg: &CrateCfg, em: &Emitted, check_only: bool) -> BuildResult {
     let start = Instant::now();
     let mut cmd = Command::new("cargo");
-    cmd.arg(if check_only { "check" } else { "build" }).arg("--offline").arg("--message-format=json").arg("--bins");
+    cmd.arg(if check_only { "check" } else { "build" }).arg("--offline").arg("--message-format=json").arg(if cfg.lib_only { "--lib" } else { "--bins" });
     if cfg.profile == "rel" {
         cmd.arg("--release");
     }
     cmd.arg("--keep-going");
     cmd.current_dir(&cfg.dir)
-        .env("CARGO_TARGET_DIR", env.target_dir())
+        .env("CARGO_TARGET_DIR", cfg.target_dir.clone().unwrap_or_else(|| env.target_dir()))
         .env("CARGO_NET_OFFLINE", "true")
         .env_remove("RUSTFLAGS")
         .env_remove("STRUM_DEBUG");
